@@ -587,6 +587,13 @@ def gen_job(core, rng):
     all_ds = [core.DatasetId(t, o) for t in names for o in tasks[t].definition.output_schema]
     ext = rng.sample(all_ds, rng.randint(0, len(all_ds))) if all_ds else []
     serdes = {rng.choice(["numpy.ndarray", "a.B"]): ("m.ser", "m.des") for _ in range(rng.choice([0, 0, 1, 2]))}
+    if rng.random() < 0.4:
+        # the way JobBuilder.build / graph2job users fill a job: constructed from tasks and edges, the rest filled in place
+        # (such fields are not in pydantic's model_fields_set; an encoder must not care how the object was built)
+        job = core.JobInstance(tasks=tasks, edges=edges)
+        job.ext_outputs.extend(ext)
+        job.serdes.update(serdes)
+        return job
     return core.JobInstance(tasks=tasks, edges=edges, serdes=serdes, ext_outputs=ext)
 
 
